@@ -693,7 +693,7 @@ class Spectrum:
     def crop(self, min_wave, max_wave):
         """Crop a :class:`Spectrum` object."""
 
-        if min_wave > self.wave[0]:
+        if self.wave.size > 0 and min_wave > self.wave[0]:
             indx = np.where(min_wave > self.wave)
             self.wave = np.delete(self.wave, indx)
             self.value = np.delete(self.value, indx)
